@@ -514,14 +514,19 @@ func (k *x3Kit) timedOut(f string) {
 	}
 }
 
-// awake notifier goroutines are at their gate
+// awake notifier goroutines are at their gate (a goroutine that never shows up is not waited for
+// longer than half a second: the state is recorded as it is and TLC judges what follows from it)
 func (k *x3Kit) settleNotifiers() {
 	for _, f := range x3Followers {
-		f := f
-		if k.part(x3Leader) != nil && k.wtr(f) == "stale" {
-			k.waitFor("notifier-"+f, func() bool {
-				return len(k.g.find("replicator.before_notify", f, func(x *x3Park) bool { return !x.old })) > 0
-			})
+		if k.part(x3Leader) == nil || k.wtr(f) != "stale" {
+			continue
+		}
+		deadline := time.Now().Add(500 * time.Millisecond)
+		for time.Now().Before(deadline) {
+			if len(k.g.find("replicator.before_notify", f, func(x *x3Park) bool { return !x.old })) > 0 {
+				break
+			}
+			time.Sleep(100 * time.Microsecond)
 		}
 	}
 }
@@ -795,6 +800,9 @@ func (k *x3Kit) step(tw *vTraceWriter, id int, step map[string]interface{}) {
 		}
 		p.pauseReplication()
 	case "Quiet":
+	case "Drain":
+		k.drain(tw, id)
+		a, res = "Skip", "skip"
 	default:
 		k.t.Fatalf("unknown action %q", a)
 	}
@@ -836,6 +844,16 @@ func (k *x3Kit) drain(tw *vTraceWriter, id int) {
 		}
 		k.step(tw, id, st)
 	}
+}
+
+// tail of every behaviour: drain; one more record (whatever the history, the wake-up chain must still
+// work); drain; the quiescent state is judged
+func (k *x3Kit) tail(tw *vTraceWriter, id int) {
+	k.drain(tw, id)
+	if k.stuck == "" && k.part(x3Leader) != nil {
+		k.step(tw, id, map[string]interface{}{"a": "Append"})
+		k.drain(tw, id)
+	}
 	k.step(tw, id, map[string]interface{}{"a": "Quiet"})
 }
 
@@ -875,7 +893,7 @@ func x3Run(t *testing.T, ns *gnatsd.Server, b vBehaviour, tw *vTraceWriter) stri
 		k.step(tw, b.ID, step)
 	}
 	if k.stuck == "" && vBool(b.Cfg, "drain") {
-		k.drain(tw, b.ID)
+		k.tail(tw, b.ID)
 	}
 	return k.stuck
 }
